@@ -89,7 +89,9 @@ def judge_burg(c, tag, x, order, criteria, a, rho, ref, feats):
     c.require('%s:reflection-modulus<=1' % tag, bool(np.all(np.abs(ref) <= 1 + 1e-12)), {'k': ref[:6]}, feats)
     # conditioning of stage i: errors in earlier stages are amplified by 1/rho_i
     amp = float(r0 / np.min(rhoref[:q + 1]))
-    tol = 1e-10 * max(1.0, amp)
+    # rounding of the error-energy recursion grows with the amplification r0/rho and with the square of the order
+    # (measured on the unchanged tree over 11000 records up to 110 dB SNR: <= 9 eps q^2 amp); allowance 100 eps q^2 amp
+    tol = max(1e-12, 100 * 2.2e-16 * max(1, q) ** 2 * max(1.0, amp))
     if q:
         c.compare('%s:stage-optimal-reflection' % tag, ref, kref[:q], tol, feats, scale=1.0,
                   detail={'N': N, 'order': order, 'q': q, 'amp': amp})
@@ -219,7 +221,10 @@ def cases(c):
 def make_x(c, d):
     if d['kind'] == 'literal':
         return np.array(d['values'], dtype=float)
-    x = gen.data({'kind': d['kind'], 'N': d['N'], 'cplx': bool(d['cplx']), 'amp': d.get('amp', 9)}, c.rng(d, 'x'))
+    dd = {'kind': d['kind'], 'N': d['N'], 'cplx': bool(d['cplx']), 'amp': d.get('amp', 9)}
+    if 'snr_db' in d:
+        dd.update(snr_db=d['snr_db'], K=d.get('K', 2))
+    x = gen.data(dd, c.rng(d, 'x'))
     if d['kind'] == 'int' and not d['cplx'] and d.get('idt'):
         x = x.astype(d['idt'])
     if d.get('amp10'):
